@@ -102,7 +102,11 @@ CHECKS = {
             "under every assignment of upper/self.upper (else L L^T and R^T R are confused); (S) every definition "
             "taking a spec-bearing parameter (upper, left_tensor/lhs, eigenvectors, reduce_inv_quad, logdet, dim, "
             "alpha) reads or forwards it; (M) the method names _choose_root_method can produce are handled by both "
-            "decomposition dispatchers, which reject unknown names. NOT decided: L L^T = A, orthonormality of Q/U/V, "
+            "decomposition dispatchers, which reject unknown names; (M2) inside a branch taken for an explicit "
+            "method name, a call to another dispatcher that has its own branch for that name passes method= (an exact "
+            "request is not silently re-dispatched to truncated Lanczos by size); (J) the info-gating, per-member / "
+            "incremental jitter and orientation rules of psd_safe_cholesky (C16.I/D/U re-used), since every Cholesky "
+            "route returns that factor. NOT decided: L L^T = A, orthonormality of Q/U/V, "
             "Krylov compressions (numerical).",
             TRUST + "; orientation tag rules of lo_static/orient.py; reviewed exception tables.", "DESIGN.md section 3, C06"),
     "C16": (True,
